@@ -1,3 +1,208 @@
+(* C01/Props.v — property theorems only.  Each is closed by [exact] of a lemma from Lemmas.v and
+   followed by Print Assumptions (parsed by the check: must be "Closed under the global context").
+
+   Property C01 (properties.jsonl):
+     (a) every event posted to the bus is delivered exactly once to each handler that is registered for it
+         when its dispatch begins (and whose condition holds), in descending priority order, handler kwargs
+         overriding posted ones; handlers of different events never nest or interleave;
+     (b) events posted while an event is handled are dispatched after that event's remaining handlers and
+         before any event that was already waiting;
+     (c) an event's completion callback runs exactly once, only after its handlers and everything they
+         transitively posted have been dispatched.
+
+   All theorems hold for every script (handler programs are data), every state and both settings of [fast].
+   [fast = true] is the code (events.py _post has a fast path that drops a post that has neither a callback
+   nor a registered handler at post time).  "Every posted event" in (a) is therefore FALSE of the faithful
+   model in one recorded class (fastpath_drop_refuted: known finding fastpath-drop-late-registration,
+   reproduced on the implementation on every run); the positive statement is proved for every QUEUED post
+   (every_queued_event_dispatched_once_partial) together with the exact condition under which a post is
+   queued (post_enqueues_iff).
+
+   Theorems about complete runs carry the guard [oof = false] ("the run did not stop on fuel"); the
+   correspondence run checks that guard on every generated case (FUEL = 4000).  A closed-form fuel bound
+   (DESIGN.md fuel_sufficient) is not proved; dfs_fuel_monotone is what the other proofs need. *)
 From Common Require Import Prelude.
+From Coq Require Import Sorting.Sorted Sorting.Permutation.
 From C01 Require Import Model Lemmas.
 Open Scope Z_scope.
+
+(* ---- (a) handlers of one dispatch -------------------------------------------------------------- *)
+
+(* One dispatch of a plain event in a reachable state: the observations it adds are exactly the handlers
+   registered when it begins (the snapshot: handlers added during the dispatch are not called, handlers
+   removed during it still are), filtered by their condition on the merged kwargs, in list order; that
+   list is strictly sorted by (priority descending, registration order) and has no duplicates. *)
+Theorem handlers_once_in_priority_order :
+  forall fast sc p s, reg_ok s -> q_ty p = TNone ->
+    let snap := snapshot (q_ev p) s in
+    out (process fast sc p s) = out s ++ expected_invocations (q_ev p) (q_kw p) snap /\
+    sorted_ps snap /\ NoDup snap.
+Proof. exact handlers_once_l. Qed.
+Print Assumptions handlers_once_in_priority_order.
+
+Example handlers_once_hypotheses_satisfiable :
+  reg_ok ex_state /\ q_ty ex_post = TNone /\ map h_key (snapshot (q_ev ex_post) ex_state) = [3; 1].
+Proof. exact ex_handlers_hyp. Qed.
+Print Assumptions handlers_once_hypotheses_satisfiable.
+
+(* [reg_ok] (every handler list strictly sorted, sequence numbers below the counter) is an invariant *)
+Theorem registry_sorted_invariant :
+  forall fast sc f turns, reg_ok (run_turns fast sc f turns init).
+Proof. exact registry_sorted_invariant_l. Qed.
+Print Assumptions registry_sorted_invariant.
+
+Theorem registry_sorted_preserved_by_dispatch :
+  forall fast sc f pending s, reg_ok s -> reg_ok (dfs fast sc f pending s).
+Proof. exact dfs_ok. Qed.
+Print Assumptions registry_sorted_preserved_by_dispatch.
+
+(* add_handler (append, then list.sort(key=priority, reverse=True)) = stable insertion: the new handler
+   goes behind every handler of greater or equal priority and before the first one of smaller priority *)
+Theorem add_handler_is_stable_insert :
+  forall key e pid prio hk c s, reg_ok s ->
+    let h := mkH key pid prio (kw_norm hk) c (nseq s) in
+    exists a b, snapshot e s = a ++ b /\
+                snapshot e (add_handler key e pid prio hk c s) = a ++ h :: b /\
+                Forall (fun x => h_prio h <= h_prio x) a /\
+                match b with [] => True | y :: _ => h_prio y < h_prio h end.
+Proof. exact add_handler_is_stable_insert_l. Qed.
+
+Example add_handler_hypotheses_satisfiable :
+  reg_ok ex_state /\ map h_key (snapshot 1 ex_state) = [3; 1] /\
+  map h_key (snapshot 1 (add_handler 9 1 1 2 [] None ex_state)) = [3; 9; 1].
+Proof. exact ex_add_hyp. Qed.
+Print Assumptions add_handler_hypotheses_satisfiable.
+Print Assumptions add_handler_is_stable_insert.
+
+(* any event type: during a dispatch only handlers of that event run (serial: no nesting, no interleaving) *)
+Theorem dispatch_is_one_segment :
+  forall fast sc p s, exists o, out (process fast sc p s) = out s ++ o /\ Forall (is_invoke (q_ev p)) o.
+Proof. exact dispatch_is_segment_l. Qed.
+Print Assumptions dispatch_is_one_segment.
+
+(* ---- the queue stack --------------------------------------------------------------------------- *)
+
+(* the invariant "an empty deque has only empty deques below it" is kept by one iteration of the inner loop
+   (pop when the current deque ran empty; push when the event posted) ... *)
+Theorem stack_invariant_preserved :
+  forall rest stack (new : list posted), stack_ok stack ->
+    let '(n1, s1) := pop_if_empty rest stack in
+    n1 ++ concat s1 = rest ++ concat stack /\ stack_ok (n1 :: s1) /\
+    (new <> [] -> stack_ok (new :: n1 :: s1)).
+Proof. exact stack_invariant_preserved_l. Qed.
+Print Assumptions stack_invariant_preserved.
+
+(* ... and the literal loop equals the specification "one pending list, new posts in front"; when the loop
+   exits (not on fuel) every stacked deque is empty: no queued event is lost *)
+Theorem no_event_lost :
+  forall fast sc f next stack s, stack_ok (next :: stack) ->
+    fst (inner fast sc f next stack s) = dfs fast sc f (next ++ concat stack) s /\
+    (oof (fst (inner fast sc f next stack s)) = false -> all_nil (snd (inner fast sc f next stack s))).
+Proof. exact inner_dfs. Qed.
+Print Assumptions no_event_lost.
+
+Example no_event_lost_hypotheses_satisfiable :
+  stack_ok ([ex_post] :: [[ex_post; ex_post]; []; []]) /\
+  oof (fst (inner true ex_script 50 [ex_post] [[ex_post; ex_post]; []; []] ex_state)) = false.
+Proof. exact ex_stack_hyp. Qed.
+Print Assumptions no_event_lost_hypotheses_satisfiable.
+
+(* process_event_queue as a whole = "dispatch everything (transitively), then ONE callback, repeat" *)
+Theorem dispatch_refines_dfs :
+  forall fast sc f stack s, all_nil stack -> outer fast sc f stack s = drain fast sc f s.
+Proof. exact outer_drain. Qed.
+Print Assumptions dispatch_refines_dfs.
+
+(* ---- (b) order of dispatch ----------------------------------------------------------------------- *)
+
+(* dispatching p with [waiting] behind it = all handlers of p (process), then everything p posted and,
+   transitively, everything that posts (the inner dfs), and only then the events that were waiting *)
+Theorem posts_before_waiting :
+  forall fast sc f p waiting s,
+    oof (dfs fast sc (S f) (p :: waiting) s) = false ->
+    let s1 := process fast sc p s in
+    dfs fast sc (S f) (p :: waiting) s =
+      dfs fast sc f waiting (dfs fast sc f (evq s1) (set_evq [] s1)) /\
+    oof (dfs fast sc f (evq s1) (set_evq [] s1)) = false.
+Proof. exact posts_before_waiting_l. Qed.
+Print Assumptions posts_before_waiting.
+
+Example posts_before_waiting_hypotheses_satisfiable :
+  let s := fst (invoke true ex_script 10 (emit (Ctx 10) init)) in
+  match evq s with
+  | p :: waiting => waiting <> [] /\ oof (dfs true ex_script 50 (p :: waiting) (set_evq [] s)) = false /\
+                    evq (process true ex_script p (set_evq [] s)) <> []
+  | [] => False
+  end.
+Proof. exact ex_waiting_hyp. Qed.
+Print Assumptions posts_before_waiting_hypotheses_satisfiable.
+
+Theorem dfs_fuel_monotone :
+  forall fast sc f pending s, oof (dfs fast sc f pending s) = false ->
+    forall f', (f <= f')%nat -> dfs fast sc f' pending s = dfs fast sc f pending s.
+Proof. exact dfs_mono. Qed.
+Print Assumptions dfs_fuel_monotone.
+
+(* ---- (c) completion callbacks -------------------------------------------------------------------- *)
+
+(* while pending events (and everything they post) are dispatched no callback runs, and queued callbacks
+   stay queued *)
+Theorem no_callback_during_dispatch :
+  forall fast sc f pending s,
+    exists o l, out (dfs fast sc f pending s) = out s ++ o /\ cbids o = [] /\
+                cbq (dfs fast sc f pending s) = l ++ cbq s.
+Proof. exact dfs_only_invokes. Qed.
+Print Assumptions no_callback_during_dispatch.
+
+(* after p and everything p transitively posted has been dispatched, p's callback is still waiting;
+   by dispatch_refines_dfs it is popped only when a whole dfs has finished *)
+Theorem callback_after_closure :
+  forall fast sc f p cb s, q_cb p = Some cb ->
+    exists k l o, cbq (dfs fast sc (S f) [p] s) = l ++ (q_id p, cb, k) :: cbq s /\
+                  out (dfs fast sc (S f) [p] s) = out s ++ o /\ cbids o = [].
+Proof. exact callback_after_closure_l. Qed.
+Print Assumptions callback_after_closure.
+
+(* Whole runs (any number of posting contexts).  Full statement of (a)/(c) "every POSTED event ...": false, see
+   fastpath_drop_refuted.  Proved: every QUEUED post is dispatched exactly once (disp is a permutation of enq),
+   every callback that was queued ran exactly once (the Callback observations are a permutation of pushed), and
+   both queues are empty at the end.  Missing w.r.t. the full statement: posts taken by _post's fast path. *)
+Theorem every_queued_event_dispatched_once_partial :
+  forall fast sc f turns,
+    let s := run_turns fast sc f turns init in
+    oof s = false ->
+    Permutation (disp s) (enq s) /\ Permutation (cbids (out s)) (pushed s) /\ evq s = [] /\ cbq s = [].
+Proof. exact every_event_once_l. Qed.
+Print Assumptions every_queued_event_dispatched_once_partial.
+
+Example run_completes_on_posting_tree :
+  let s := run_turns true ex_script 50 [10] init in
+  oof s = false /\
+  out s = [Ctx 10;
+           Invoke 3 3 1 [(1, VZ 1)]; Invoke 1 1 1 [(1, VZ 1)]; Invoke 2 2 1 [(1, VZ 7)];
+           Invoke 4 4 2 [];
+           Invoke 5 5 3 [(2, VB true)];
+           Invoke 5 5 3 [];
+           Callback 0 20 [(1, VZ 1)];
+           Quiet 0 0].
+Proof. exact ex_run. Qed.
+Print Assumptions run_completes_on_posting_tree.
+
+(* a post is queued unless it has no callback and no handler is registered for the event at post time *)
+Theorem post_is_queued_iff :
+  forall fast e ty cb k s,
+    enq (post fast e ty cb k s) = enq s ++ [npost s] <->
+    ~ (fast = true /\ cb = None /\ reg_get e (reg s) = None).
+Proof. exact post_enqueues_iff. Qed.
+Print Assumptions post_is_queued_iff.
+
+(* the recorded finding: post(e) followed by add_handler(e, h) in one context; when the queue is drained h is
+   registered, yet it is never called (fast = true, the code); without the fast path it is *)
+Theorem fastpath_drop_refuted :
+  let s := run_turns true fp_script 10 [1] init in
+  let s' := run_turns false fp_script 10 [1] init in
+  oof s = false /\ oof s' = false /\
+  map h_key (snapshot 1 s) = [1] /\
+  In (Invoke 1 2 1 []) (out s') /\ ~ In (Invoke 1 2 1 []) (out s).
+Proof. exact fastpath_drop_refuted_l. Qed.
+Print Assumptions fastpath_drop_refuted.
